@@ -155,7 +155,7 @@ def shrink(line, fails):
 
 def run_property(pid, res, proofs_ok, proofs_why, only=None):
     rng = random.Random(res.seed * 65537 + (8 if pid == "C08" else 9))
-    n = 600 if res.tier == "quick" else 60000
+    n = 600 if res.tier == "quick" else 20000
     if only is None:
         lines, tags = [], []
         for ln in c.corpus_lines("updater"):
